@@ -745,10 +745,11 @@ func c10PolDefs(names []string) []*oc.PolicyDefinition {
 	return l
 }
 
-func c10Config(t *testing.T, rp *RoutingPolicy, o *c10Op) (res string) {
+// res: "ok", "panic" (the call crashed; detail says how) or "err: ..." (the call refused)
+func c10Config(t *testing.T, rp *RoutingPolicy, o *c10Op) (res, detail string) {
 	defer func() {
 		if r := recover(); r != nil {
-			res = fmt.Sprintf("panic: %v", r)
+			res, detail = "panic", fmt.Sprint(r)
 		}
 	}()
 	var err error
@@ -796,9 +797,9 @@ func c10Config(t *testing.T, rp *RoutingPolicy, o *c10Op) (res string) {
 		t.Fatalf("unknown op %q", o.Op)
 	}
 	if err != nil {
-		return "err: " + err.Error()
+		return "err: " + err.Error(), ""
 	}
-	return "ok"
+	return "ok", ""
 }
 
 // ---- routes ----
@@ -1035,11 +1036,11 @@ func TestVerifC10(t *testing.T) {
 				tr.Emit(map[string]any{"ev": "Eval", "op": raw, "obs": obs})
 				continue
 			}
-			res := c10Config(t, rp, &o)
+			res, detail := c10Config(t, rp, &o)
 			if b.RbEvery {
-				tr.Emit(map[string]any{"ev": "Cfg", "op": raw, "res": res, "rb": c10ReadBack(t, rp)})
+				tr.Emit(map[string]any{"ev": "Cfg", "op": raw, "res": res, "detail": detail, "rb": c10ReadBack(t, rp)})
 			} else {
-				tr.Emit(map[string]any{"ev": "Cfg", "op": raw, "res": res})
+				tr.Emit(map[string]any{"ev": "Cfg", "op": raw, "res": res, "detail": detail})
 			}
 		}
 		tr.Emit(map[string]any{"ev": "Dump", "rb": c10ReadBack(t, rp)})
